@@ -115,9 +115,9 @@ Proof.
 Qed.
 Print Assumptions C09_is_hermitian_iff.
 
-(** 5. parsing the printed form gives back the string (n >= 1) *)
+(** 5. parsing the printed form gives back the string (every length, n = 0 included) *)
 Theorem C09_parse_print :
-  forall n p, (1 <= n)%nat -> wfp n p -> (0 <= pq p < 4)%Z -> pparse (pprint p) = Some p.
+  forall n p, wfp n p -> (0 <= pq p < 4)%Z -> pparse (pprint p) = Some p.
 Proof. exact parse_print. Qed.
 Print Assumptions C09_parse_print.
 
